@@ -9,25 +9,30 @@ Local Open Scope list_scope.
 
 (* ------------------------------------------------------------------ services *)
 
-Lemma svc_cmp_lex : svc_cmp = lex (on s_time Z.compare) (lex (on s_name String.compare) (on s_ns String.compare)).
+Lemma svc_cmp_lex :
+  svc_cmp = lex (on s_time Z.compare) (lex (on s_name String.compare) (lex (on s_ns String.compare)
+              (lex (on s_obj String.compare) (on s_host String.compare)))).
 Proof. reflexivity. Qed.
 
 Lemma wo_svc : weak_order svc_cmp.
 Proof. rewrite svc_cmp_lex. repeat apply wo_lex; apply wo_on; auto using wo_Z, wo_string. Qed.
 
 Lemma svc_cmp_eq x y :
-  svc_cmp x y = Eq <-> s_time x = s_time y /\ s_name x = s_name y /\ s_ns x = s_ns y.
+  svc_cmp x y = Eq <->
+  s_time x = s_time y /\ s_name x = s_name y /\ s_ns x = s_ns y /\ s_obj x = s_obj y /\ s_host x = s_host y.
 Proof.
   rewrite svc_cmp_lex, !lex_eq. unfold on. rewrite Z_cmp_eq, !str_cmp_eq. tauto.
 Qed.
 
-(* the key uniqueness SortServicesByCreationTime needs *)
+(* the key uniqueness SortServicesByCreationTime needs: two distinct service objects of the list differ in
+   creation time, Attributes.Name, namespace, ObjectName or hostname *)
 Definition svc_key_unique (l : list svc) : Prop :=
   forall x y, In x l -> In y l ->
-    s_time x = s_time y -> s_name x = s_name y -> s_ns x = s_ns y -> x = y.
+    s_time x = s_time y -> s_name x = s_name y -> s_ns x = s_ns y -> s_obj x = s_obj y -> s_host x = s_host y ->
+    x = y.
 
 Lemma svc_key_unique_separates l : svc_key_unique l -> separates svc_cmp l.
-Proof. intros U x y Hx Hy E. apply svc_cmp_eq in E. destruct E as (a & b & c). apply U; assumption. Qed.
+Proof. intros U x y Hx Hy E. apply svc_cmp_eq in E. destruct E as (a & b & c & d & e). apply U; assumption. Qed.
 
 Lemma services_order l l' :
   Permutation l l' -> svc_key_unique l -> sort_services l = sort_services l'.
@@ -37,23 +42,15 @@ Lemma host_index_order l l' :
   Permutation l l' -> svc_key_unique l -> host_index l = host_index l'.
 Proof. intros P U. unfold host_index. rewrite (services_order l l' P U). reflexivity. Qed.
 
-(* K6: two ServiceEntry-derived services (registry External, Attributes.Name = hostname) of one
-   namespace naming the same host with the same creation time. *)
+(* the former K6 witness: two ServiceEntry-derived services of one namespace naming the same host with the
+   same creation time are now separated by ObjectName *)
 Definition k6_a := MkSvc 1 1700000000000000000 "dup.example.com" "ns1" "dup.example.com" false "se-a".
 Definition k6_b := MkSvc 2 1700000000000000000 "dup.example.com" "ns1" "dup.example.com" false "se-b".
 
-Definition se_shaped (s : svc) : Prop := s_kube s = false /\ s_name s = s_host s.
-
-Lemma services_not_total :
-  exists l l', Permutation l l' /\ Forall se_shaped l /\ NoDup (map s_obj l) /\
-    sort_services l <> sort_services l' /\
-    winner l ("dup.example.com", "ns1") <> winner l' ("dup.example.com", "ns1").
-Proof.
-  exists [k6_a; k6_b], [k6_b; k6_a]. split; [apply perm_swap|].
-  split; [repeat constructor|].
-  split; [repeat constructor; cbn; intuition discriminate|].
-  split; vm_compute; discriminate.
-Qed.
+Lemma k6_now_ordered :
+  sort_services [k6_a; k6_b] = sort_services [k6_b; k6_a] /\
+  winner [k6_a; k6_b] ("dup.example.com", "ns1") = winner [k6_b; k6_a] ("dup.example.com", "ns1").
+Proof. split; vm_compute; reflexivity. Qed.
 
 (* the registry-local comparator with the ObjectName fallback *)
 Lemma se_cmp_lex :
@@ -225,56 +222,67 @@ Proof.
   rewrite (strings_order _ _ P'). reflexivity.
 Qed.
 
-(* two non-Kubernetes services for one hostname in two namespaces, both visible, equal creation time *)
-Lemma pick_best_not_total :
-  exists l l', Permutation l l' /\ NoDup (map n_ns l) /\
-    Forall (fun s => n_visible s = true /\ n_kube s = false) l /\
-    pick_best l <> pick_best l'.
+(* pickBestVisibleNamespace: [better] is the strict part of the total order (creation time, namespace) *)
+Definition ncmp : nsvc -> nsvc -> comparison := lex (on n_time Z.compare) (on n_ns String.compare).
+
+Lemma wo_ncmp : weak_order ncmp.
+Proof. apply wo_lex; apply wo_on; auto using wo_Z, wo_string. Qed.
+
+Lemma better_lt s b : better s b = match ncmp s b with Lt => true | _ => false end.
 Proof.
-  exists [MkNsvc "ns1" true false 7; MkNsvc "ns2" true false 7],
-         [MkNsvc "ns2" true false 7; MkNsvc "ns1" true false 7].
-  split; [apply perm_swap|]. split; [repeat constructor; cbn; intuition discriminate|].
-  split; [repeat constructor|]. vm_compute. discriminate.
+  unfold better, ncmp, lex, on.
+  destruct (Z.compare_spec (n_time s) (n_time b)) as [E|L|G].
+  - rewrite E, Z.ltb_irrefl, Z.eqb_refl. cbn. unfold String.ltb.
+    destruct (String.compare (n_ns s) (n_ns b)); reflexivity.
+  - apply Z.ltb_lt in L. rewrite L. reflexivity.
+  - assert (H1 : (n_time s <? n_time b)%Z = false) by (apply Z.ltb_ge; lia).
+    assert (H2 : (n_time s =? n_time b)%Z = false) by (apply Z.eqb_neq; lia).
+    rewrite H1, H2. reflexivity.
 Qed.
 
-(* what pickBestVisibleNamespace computes when there is no visible Kubernetes service:
-   the namespace of the visible service with the smallest creation time — well defined when the
-   visible creation times are pairwise distinct. *)
 Definition visible_nonkube (l : list nsvc) : Prop :=
   Forall (fun s => n_visible s = true -> n_kube s = false) l.
 
-Definition times_distinct (l : list nsvc) : Prop :=
-  forall x y, In x l -> In y l -> n_visible x = true -> n_visible y = true -> n_time x = n_time y -> x = y.
-
-(* the loop result is characterised: it is "" iff nothing is visible (and no best), otherwise the
-   namespace of an element (or best) that is visible and minimal in time *)
+(* the loop result is characterised: "" iff nothing is visible (and no best), otherwise the namespace of
+   a candidate that is minimal for (creation time, namespace) *)
 Lemma pick_best_loop_min l : forall best,
   visible_nonkube l ->
   let cands := (match best with Some b => [b] | None => [] end) ++ filter n_visible l in
   match cands with
   | [] => pick_best_loop l best = ""
   | _ => exists m, In m cands /\ pick_best_loop l best = n_ns m /\
-                   forall c, In c cands -> (n_time m <= n_time c)%Z
+                   forall c, In c cands -> le ncmp m c
   end.
 Proof.
   induction l as [|s l IH]; intros best NK.
   - cbn. destruct best as [b|]; cbn; [|reflexivity].
-    exists b. split; [left; reflexivity|]. split; [reflexivity|]. intros c [<-|[]]. lia.
+    exists b. split; [left; reflexivity|]. split; [reflexivity|].
+    intros c [<-|[]]. unfold le. rewrite (wo_refl _ wo_ncmp). discriminate.
   - inversion NK as [|? ? Hs NK']; subst. cbn [pick_best_loop filter].
     destruct (n_visible s) eqn:V.
     + rewrite (Hs eq_refl).
       destruct best as [b|].
-      * destruct (n_time s <? n_time b)%Z eqn:LT.
-        -- specialize (IH (Some s) NK'). cbn in IH. destruct IH as (m & Hin & Hr & Hmin).
-           cbn. exists m. split; [right; exact Hin|]. split; [exact Hr|].
-           intros c [<-|Hc]; [|apply Hmin; exact Hc].
-           apply Z.ltb_lt in LT. specialize (Hmin s (or_introl eq_refl)). lia.
+      * rewrite better_lt. destruct (ncmp s b) eqn:C.
         -- specialize (IH (Some b) NK'). cbn in IH. destruct IH as (m & Hin & Hr & Hmin).
            cbn. exists m. split; [destruct Hin as [<-|Hin]; [left; reflexivity|right; right; exact Hin]|].
            split; [exact Hr|].
            intros c [<-|[<-|Hc]].
            ++ apply Hmin. left; reflexivity.
-           ++ apply Z.ltb_ge in LT. specialize (Hmin b (or_introl eq_refl)). lia.
+           ++ apply (le_trans _ wo_ncmp m b s); [apply Hmin; left; reflexivity|].
+              unfold le. rewrite (wo_eq_sym _ wo_ncmp _ _ C). discriminate.
+           ++ apply Hmin. right. exact Hc.
+        -- specialize (IH (Some s) NK'). cbn in IH. destruct IH as (m & Hin & Hr & Hmin).
+           cbn. exists m. split; [right; exact Hin|]. split; [exact Hr|].
+           intros c [<-|Hc]; [|apply Hmin; exact Hc].
+           apply (le_trans _ wo_ncmp m s b); [apply Hmin; left; reflexivity|].
+           unfold le. rewrite C. discriminate.
+        -- specialize (IH (Some b) NK'). cbn in IH. destruct IH as (m & Hin & Hr & Hmin).
+           cbn. exists m. split; [destruct Hin as [<-|Hin]; [left; reflexivity|right; right; exact Hin]|].
+           split; [exact Hr|].
+           intros c [<-|[<-|Hc]].
+           ++ apply Hmin. left; reflexivity.
+           ++ apply (le_trans _ wo_ncmp m b s); [apply Hmin; left; reflexivity|].
+              unfold le. rewrite (wo_gt_lt _ wo_ncmp _ _ C). discriminate.
            ++ apply Hmin. right. exact Hc.
       * specialize (IH (Some s) NK'). cbn in IH. cbn. exact IH.
     + specialize (IH best NK'). exact IH.
@@ -289,10 +297,11 @@ Proof.
   - etransitivity; eassumption.
 Qed.
 
+(* no hypothesis on creation times any more: namespaces (the map keys) decide ties *)
 Lemma pick_best_order_nokube l l' :
-  Permutation l l' -> visible_nonkube l -> times_distinct l -> pick_best l = pick_best l'.
+  Permutation l l' -> visible_nonkube l -> pick_best l = pick_best l'.
 Proof.
-  intros P NK TD.
+  intros P NK.
   assert (NK' : visible_nonkube l').
   { unfold visible_nonkube in *. rewrite Forall_forall in *. intros x Hx. apply NK.
     eapply Permutation_in; [apply Permutation_sym; exact P|exact Hx]. }
@@ -305,14 +314,12 @@ Proof.
   - destruct (filter n_visible l') as [|a' fl'] eqn:E2.
     + apply Permutation_sym, Permutation_nil in PF. discriminate.
     + destruct H1 as (m & Hm & R1 & M1). destruct H2 as (m' & Hm' & R2 & M2).
-      rewrite R1, R2. f_equal.
+      rewrite R1, R2.
       assert (Hm'1 : In m' (a :: fl)) by (eapply Permutation_in; [apply Permutation_sym; exact PF|exact Hm']).
       assert (Hm1 : In m (a' :: fl')) by (eapply Permutation_in; [exact PF|exact Hm]).
-      rewrite <- E1 in Hm, Hm'1. apply filter_In in Hm, Hm'1.
-      apply TD; try tauto.
-      specialize (M1 m'). specialize (M2 m). rewrite <- E1 in M1.
-      assert (In m' (filter n_visible l)) by (apply filter_In; tauto).
-      specialize (M1 H). specialize (M2 Hm1). lia.
+      pose proof (le_antisym_eq _ wo_ncmp m m' (M1 m' Hm'1) (M2 m Hm1)) as E.
+      unfold ncmp in E. apply lex_eq in E. destruct E as [_ E]. unfold on in E.
+      apply str_cmp_eq in E. exact E.
 Qed.
 
 (* with exactly one visible Kubernetes service the loop returns its namespace wherever it sits *)
@@ -329,22 +336,40 @@ Proof.
   - destruct (n_kube s) eqn:Ks.
     + rewrite (U s (or_introl eq_refl) Vs Ks). reflexivity.
     + assert (Hin' : In k l) by (destruct Hin as [->|H]; [congruence|exact H]).
-      destruct best as [b|]; [destruct (n_time s <? n_time b)%Z|]; apply IH; assumption.
+      destruct best as [b|]; [destruct (better s b)|]; apply IH; assumption.
   - assert (Hin' : In k l) by (destruct Hin as [->|H]; [congruence|exact H]).
     apply IH; assumption.
 Qed.
 
-Lemma pick_best_order_kube l l' k :
-  Permutation l l' -> In k l -> n_visible k = true -> n_kube k = true ->
-  (forall x, In x l -> n_visible x = true -> n_kube x = true -> x = k) ->
-  pick_best l = pick_best l'.
+(* a hostname is owned by at most one Kubernetes service (its hostname contains its namespace) *)
+Definition one_kube (l : list nsvc) : Prop :=
+  forall x y, In x l -> In y l -> n_visible x = true -> n_kube x = true ->
+    n_visible y = true -> n_kube y = true -> x = y.
+
+Lemma pick_best_order l l' : Permutation l l' -> one_kube l -> pick_best l = pick_best l'.
 Proof.
-  intros P Hin V K U. unfold pick_best.
-  rewrite (pick_best_loop_kube k l None Hin V K U).
-  symmetry. apply pick_best_loop_kube; try assumption.
-  - eapply Permutation_in; eassumption.
-  - intros x Hx. apply U. eapply Permutation_in; [apply Permutation_sym; exact P|exact Hx].
+  intros P O.
+  destruct (existsb (fun s => n_visible s && n_kube s) l) eqn:E.
+  - apply existsb_exists in E. destruct E as (k & Hk & VK). apply andb_true_iff in VK. destruct VK as [V K].
+    assert (U : forall x, In x l -> n_visible x = true -> n_kube x = true -> x = k)
+      by (intros x Hx Vx Kx; apply O; assumption).
+    unfold pick_best. rewrite (pick_best_loop_kube k l None Hk V K U).
+    symmetry. apply pick_best_loop_kube; try assumption.
+    + eapply Permutation_in; eassumption.
+    + intros x Hx. apply U. eapply Permutation_in; [apply Permutation_sym; exact P|exact Hx].
+  - apply pick_best_order_nokube; [exact P|].
+    unfold visible_nonkube. apply Forall_forall. intros x Hx Vx.
+    destruct (n_kube x) eqn:Kx; [|reflexivity].
+    assert (C : existsb (fun s => n_visible s && n_kube s) l = true)
+      by (apply existsb_exists; exists x; split; [exact Hx|rewrite Vx, Kx; reflexivity]).
+    congruence.
 Qed.
+
+(* the former witness: equal-age ServiceEntries in ns1 and ns2 now always give ns1 *)
+Lemma pick_best_former_witness :
+  pick_best [MkNsvc "ns1" true false 7; MkNsvc "ns2" true false 7] = "ns1"%string /\
+  pick_best [MkNsvc "ns2" true false 7; MkNsvc "ns1" true false 7] = "ns1"%string.
+Proof. split; reflexivity. Qed.
 
 (* ------------------------------------------------------------------ virtual hosts *)
 
